@@ -38,7 +38,7 @@ ev = {
   "simulated_time": "none: the code under test reads no clock and has no timer; there is no time to simulate",
   "determinism_recheck": [{"backend": p["backend"], **(p["determinism"] or {})} for p in parts],
   "known_findings_seen": [{"backend": p["backend"], **k} for p in parts for k in p["known_findings_seen"]],
-  "per_backend": [{k: p[k] for k in ("backend", "runs", "ops", "ops_judged", "wall_s", "runs_per_hour", "units_available", "types_available")} for p in parts],
+  "per_backend": [{k: p[k] for k in ("backend", "runs", "ops", "ops_judged", "wall_s", "runs_per_hour", "units_available", "units_shown", "types_available")} for p in parts],
   "components": {
     "real_code": ["quantities (from /repo working tree): Quantity::fmt, Unit::fmt, Rate Display, generated Display impls, unit registries", "qty-macros (expands the catalogue and the synthetic types)", "astronomical-quantities (f64 only)", "core::fmt / alloc (std)", "fpdec Display (decimal back-end)"],
     "simulated": ["fmt::Write sink (seam: scheduling point, fault point, re-entrancy point)", "caller threads' scheduling (baton passing; the OS never chooses)", "the callers themselves (seeded workload)"],
